@@ -40,6 +40,11 @@ MISSED = [
  ("C15-e (CLI drops `--clip_nterm_methionine`)", "digest options never went through the CLI", "`cli_digest` class"),
  ("C19-e (first PSM joined with the default separator) ", "only the default protein separator, only the function", "caller-given separators through function and tool `main()` (the latter with a leftover output file exposed **D23**)"),
  ("C20-e (`exclude_features` accumulates in a module-level list)", "one call per process state", "default call repeated after a call with `exclude_features`"),
+ ("C05-f (global de-duplication key no longer treats missing values as equal)", "spectrum-key columns never held missing values", "every seventh C05 table has a retention-time key column that is empty for 20% of the spectra"),
+ ("C07-f (fallback decision counts tied scores in file order)", "rows always shuffled", "files with all targets before all decoys (and the reverse)"),
+ ("C08-f (fold hash from builtin `hash()` of the key tuple)", "spectrum keys were numeric in the determinism tables", "a string-valued key member (file name) in the API groups"),
+ ("C09-f (cleanup by an unescaped glob on the prefix)", "prefixes and file roots were plain words", "prefixes / file roots with `[ ] * ?`; files the run created *or rewrote* count as its intermediates"),
+ ("C11-f (vectorised anchor search treats tied scores rank by rank)", "tie-free model outputs", "a third of the C11 tables have coarse features (exactly tied model outputs), some unshuffled"),
  ("C12-d (new scoring block size, last row unscored when n % size == 1)", "the constant did not exist when the monitors were written; tables are far smaller than its default", "tunables are discovered in `mokapot.constants` at run time; C05 adds a variant per discovered constant, C12 a metamorphic refit under small values of it"),
 ]
 seed_rows = ["| seeded change | needs | result |", "|---|---|---|"]
